@@ -281,6 +281,13 @@ func (s *IndexedState) Add(ctx *Context, id string, x Map) (string, error) {
 	s.slock(ctx, false)
 	defer s.sunlock(ctx, false)
 
+	// What the id holds now, in case the store refuses the new fact.
+	var previous Map
+	had := false
+	if canonical, err := GenId(ctx, x, id); err == nil {
+		previous, had = s.IdToFact[canonical]
+	}
+
 	id, err := s.add(ctx, id, x)
 	if nil != err {
 		return "", err
@@ -301,9 +308,44 @@ func (s *IndexedState) Add(ctx *Context, id string, x Map) (string, error) {
 	err = s.Store.Add(ctx, s.Name, &d)
 	if err != nil {
 		Log(WARN, ctx, "IndexedState.Add", "state", s.Name, "factjs", string(js), "id", id, "error", err)
+		// The store doesn't have the fact, so memory must not keep
+		// it: searches would find (and events would trigger)
+		// something the caller was told isn't there and that is
+		// gone after the next load.
+		s.undoAdd(ctx, id, previous, had)
 		return "", err
 	}
 	return id, err
+}
+
+// undoAdd takes back, in memory only, what add just did for the id.
+func (s *IndexedState) undoAdd(ctx *Context, id string, previous Map, had bool) {
+	s.uncacheRule(id)
+	if had {
+		_, err := s.add(ctx, id, previous)
+		if err == nil {
+			return
+		}
+		// Probably expired in the meantime.
+		Log(WARN, ctx, "IndexedState.undoAdd", "state", s.Name, "id", id, "error", err)
+	}
+	fact, have := s.IdToFact[id]
+	if !have {
+		return
+	}
+	if s.remHook != nil && isScheduledRule(fact) {
+		s.withPrivilege(ctx)
+		err := s.remHook(ctx, s, id)
+		s.withoutPrivilege(ctx)
+		if err != nil {
+			Log(ERROR, ctx, "IndexedState.undoAdd", "state", s.Name, "id", id, "error", err, "when", "remHook")
+		}
+	}
+	if rule, _ := ExtractRule(ctx, fact, false); rule != nil {
+		s.unindexRule(ctx, id, rule)
+	}
+	delete(s.IdToFact, id)
+	s.FactIndex.RemIdTerms(ctx, ExtractTerms(ctx, fact), id)
 }
 
 func (s *IndexedState) add(ctx *Context, id string, x Map) (string, error) {
